@@ -8,6 +8,8 @@
 //! rejects: a rejected prefix ends the path for all its completions at once). For an accepted sequence every kind
 //! is then fixed by the path condition; the source text is assembled from the lexemes and goes through the whole
 //! pipeline (`Context::interpret`) in a session in which `x` is the scalar 3; Number tokens are the literal 2.
+//!   cfg 1 = optional session prelude, cfg 2 = optional lexeme for Identifier tokens (a unit, a function, a
+//!           dimensionful variable of that prelude)
 
 use numbat::pretty_print::PrettyPrint;
 use numbat::resolver::CodeSource;
@@ -15,7 +17,7 @@ use numbat::value::Value;
 use numbat::verif_hooks::parser::verif_parse_tokens;
 use numbat::{InterpreterResult, Statement};
 
-use crate::h_parse::{alphabet, init_tags, make_tokens, tag, K, NUM, OPS};
+use crate::h_parse::{alphabet, init_tags, make_tokens, tag, ID, K, NUM, OPS};
 use crate::session::Session;
 use crate::sym::*;
 
@@ -36,7 +38,10 @@ fn result_key(r: &InterpreterResult) -> String {
 #[unsafe(no_mangle)]
 pub extern "C" fn h_c15_expr() {
     init_tags();
-    let mut session = Session::new("dimension Scalar = 1\nlet x = 3\n");
+    // cfg 1 (optional) = session prelude, cfg 2 (optional) = the lexeme of Identifier tokens (default: x = 3)
+    let prelude = cfg(1).unwrap_or_else(|| String::from("dimension Scalar = 1\nlet x = 3\n"));
+    let ident = cfg(2).map(|s| s.trim().to_string()).unwrap_or_else(|| String::from("x"));
+    let mut session = Session::new(&prelude);
     checkpoint();
     let pattern = cfg(0).expect("cfg 0");
     let mut ks: Vec<u64> = Vec::new();
@@ -82,7 +87,13 @@ pub extern "C" fn h_c15_expr() {
         if !text.is_empty() {
             text.push(' ');
         }
-        text.push_str(if idx == NUM { "2" } else { a[idx as usize].1 });
+        text.push_str(if idx == NUM {
+            "2"
+        } else if idx == ID {
+            ident.as_str()
+        } else {
+            a[idx as usize].1
+        });
     }
     obs_str("c15-input", &text);
     // 3. whole pipeline
@@ -118,7 +129,161 @@ pub extern "C" fn h_c15_expr() {
         Statement::Expression(e) => e.get_type_scheme().pretty_print().to_string(),
         _ => String::from("<statement>"),
     };
-    check(ty1 == ty2, "echoed-expression-has-the-same-type");
+    // Type schemes with quantified dimension variables (expressions built from the polymorphic literals inf / NaN)
+    // are printed with the variables the solver happened to keep: `forall A. A⁻²` and `forall A. A²`, or
+    // `forall A. A` and `forall A B. A / B`, denote the same set of instances. Only concrete types are compared.
+    let generic = ty1.starts_with("forall") || ty2.starts_with("forall");
+    if ty1 != ty2 {
+        obs_str("c15-type", &ty1);
+        obs_str("c15-type-of-echo", &ty2);
+    }
+    check(generic || ty1 == ty2, "echoed-expression-has-the-same-type");
+    check(ty1.starts_with("forall") == ty2.starts_with("forall"), "echoed-expression-is-generic-iff-the-input-is");
     check(k1 == result_key(&r2), "echoed-expression-evaluates-to-the-same-value");
-    check(stmt2.pretty_print().to_string() == echoed, "echo-of-the-echo-is-the-same-text");
+    let echoed2 = stmt2.pretty_print().to_string();
+    if echoed2 != echoed {
+        obs_str("c15-echo-of-echo", &echoed2);
+    }
+    check(echoed2 == echoed, "echo-of-the-echo-is-the-same-text");
+}
+
+// ------------------------------------------------------------------------------------------------------------
+// C16 — inferred function signatures are valid, principal annotations (function bodies with symbolic operators)
+//
+//   cfg 0 = token pattern of the BODY (as above); Identifier tokens are the parameters, alternately `a` and `b`
+//   cfg 1 = session prelude (dimensions, units used by the call sites)
+//   cfg 2 = call sites, separated by `;` (each an argument list such as `2 meter, 3 second`)
+//
+// `fn g(a, b) = <body>` is interpreted without annotations. If it is accepted, the statement the checker echoes
+// (with the inferred signature spelled out) is interpreted as a re-declaration of g: it must be accepted, and every
+// call site must behave identically (accepted or rejected; same type; same value) before and after.
+
+fn eval_key(session: &mut Session, code: &str) -> String {
+    match session.ctx.interpret(code, CodeSource::Text) {
+        Ok((stmts, r)) => {
+            let ty = match stmts.last() {
+                Some(Statement::Expression(e)) => e.get_type_scheme().pretty_print().to_string(),
+                _ => String::from("<statement>"),
+            };
+            // quantified result types (bodies built from the polymorphic literals) are printed with whatever variables
+            // the solver kept — `forall A. A` and `forall A. A²` have the same instances — and compare as "generic"
+            let ty = if ty.starts_with("forall") { String::from("<generic>") } else { ty };
+            format!("ok:{}:{}", ty, result_key(&r))
+        }
+        Err(e) => match *e {
+            numbat::NumbatError::ResolverError(_) => "err:resolver".into(),
+            numbat::NumbatError::NameResolutionError(_) => "err:name".into(),
+            numbat::NumbatError::TypeCheckError(_) => "err:type".into(),
+            numbat::NumbatError::RuntimeError(re) => format!("err:runtime:{:?}", re.kind),
+        },
+    }
+}
+
+#[unsafe(no_mangle)]
+pub extern "C" fn h_c16_infer() {
+    init_tags();
+    let prelude = cfg(1).expect("cfg 1");
+    let calls: Vec<String> = cfg(2).expect("cfg 2").split(';').map(|s| s.trim().to_string()).filter(|s| !s.is_empty()).collect();
+    let mut session = Session::new(&prelude);
+    checkpoint();
+    let pattern = cfg(0).expect("cfg 0");
+    let mut ks: Vec<u64> = Vec::new();
+    for (i, item) in pattern.split_ascii_whitespace().enumerate() {
+        if item == "s" || item == "o" {
+            let k = u64_(i as u32);
+            let mut ok = false;
+            if item == "s" {
+                for a in 0..K {
+                    ok |= k == tag(a);
+                }
+            } else {
+                for a in OPS {
+                    ok |= k == tag(a);
+                }
+            }
+            assume(ok);
+            ks.push(k);
+        } else {
+            ks.push(tag(item.parse().expect("kind index")));
+        }
+    }
+    if ks.is_empty() {
+        return;
+    }
+    let tokens = make_tokens(&ks);
+    if verif_parse_tokens(&tokens).is_err() {
+        cover("c16-body-outside-grammar");
+        return;
+    }
+    let a = alphabet();
+    let mut body = String::new();
+    let mut nid = 0usize;
+    for &k in &ks {
+        let mut idx = K;
+        for i in 0..K {
+            if k == tag(i) {
+                idx = i;
+                break;
+            }
+        }
+        if !body.is_empty() {
+            body.push(' ');
+        }
+        if idx == NUM {
+            body.push('2');
+        } else if idx == ID {
+            body.push_str(if nid % 2 == 0 { "a" } else { "b" });
+            nid += 1;
+        } else {
+            body.push_str(a[idx as usize].1);
+        }
+    }
+    let definition = format!("fn g(a, b) = {body}");
+    obs_str("c16-definition", &definition);
+    let echoed = match session.ctx.interpret(&definition, CodeSource::Text) {
+        Ok((stmts, _)) => match stmts.last() {
+            Some(s) => s.pretty_print().to_string(),
+            None => return,
+        },
+        Err(_) => {
+            cover("c16-definition-not-accepted");
+            return;
+        }
+    };
+    cover("c16-definition-accepted");
+    obs_str("c16-inferred", &echoed);
+    let before: Vec<String> = calls.iter().map(|c| eval_key(&mut session, &format!("g({c})"))).collect();
+    // the inferred signature as an annotation
+    let echoed2 = match session.ctx.interpret(&echoed, CodeSource::Text) {
+        Ok((stmts, _)) => match stmts.last() {
+            Some(s) => s.pretty_print().to_string(),
+            None => String::new(),
+        },
+        Err(_) => {
+            check(false, "inferred-signature-is-accepted-as-annotation");
+            return;
+        }
+    };
+    cover("c16-annotated-version-accepted");
+    // (The annotated version is echoed with its annotations as written — `A^2` where the inferred signature was
+    // printed as `A²`; C16 does not ask for identical text, so the two echoes are only recorded.)
+    if echoed2 != echoed {
+        obs_str("c16-annotated-echo", &echoed2);
+    }
+    let mut same = true;
+    let mut any_ok = false;
+    for (i, c) in calls.iter().enumerate() {
+        let after = eval_key(&mut session, &format!("g({c})"));
+        any_ok |= after.starts_with("ok:");
+        if after != before[i] {
+            same = false;
+            obs_str("c16-call", c);
+            obs_str("c16-before", &before[i]);
+            obs_str("c16-after", &after);
+        }
+    }
+    if any_ok {
+        cover("c16-some-call-accepted");
+    }
+    check(same, "annotated-version-is-neither-more-nor-less-permissive");
 }
